@@ -1,5 +1,5 @@
 #!/bin/bash
-# Process every delivered seed (/tmp/wt-C*/seed/<k>/): verify it (suite passes, demo fails with /
+# Process every seed (/verif/seeded/<ID>-<k>/): verify it (suite passes, demo fails with /
 # passes without), then run quick checks against it in the scratch copy.
 # usage: tools/seedqueue.sh [own|all]   own = only the seed's own property check (default), all = all 20
 # Logs: /tmp/seedlogs/<mode>/<ID>-<k>.log
@@ -7,9 +7,9 @@ set -u
 mode=${1:-own}
 export MREPO=${MREPO:-/tmp/m1/repo} MHARNESS=${MHARNESS:-/tmp/m1/harness}
 mkdir -p /tmp/seedlogs/$mode /tmp/seedlogs/verify
-for sd in /tmp/wt-C*/seed/*/; do
+for sd in ${SEED_GLOB:-/verif/seeded/*/}; do
     [ -f "$sd/patch.diff" ] && [ -f "$sd/demo.rs" ] && [ -f "$sd/meta.json" ] || continue
-    id=$(echo "$sd" | sed -E 's#/tmp/wt-(C[0-9]+)/seed/([0-9]+)/#\1-\2#')
+    id=$(basename "$sd")
     prop=${id%%-*}
     vlog=/tmp/seedlogs/verify/$id.log
     if [ ! -f "$vlog" ]; then /verif/tools/seedverify.sh "$sd" > "$vlog" 2>&1; fi
